@@ -507,15 +507,33 @@ def guard_location(F, rep):
                 for x in nodes(g, "Path"):
                     if x.get("res") != "Local":
                         continue
-                    o = cs.fl.origin.get(x["hid"])
-                    if o is None or o.get("src") is None or o["path"] == ():
-                        continue
-                    srcx = peel_clone(o["src"])
-                    if srcx.get("k") == "Try":
-                        srcx = peel_clone(srcx["e"])
-                    idx = [el[1] for el in o["path"] if el[0] == "tuple"]
-                    if srcx.get("k") == "Call" and idx and idx[0] != 0 and id(o["node"]) in ctx_sites:
-                        bad = (x["name"], pp(srcx)[:50])
+                    # the value may be an element of what the sub-parser returned (`for (variant, ty) in items`): follow the
+                    # chain of bindings back to the call
+                    hid, steps = x["hid"], 0
+                    while steps < 6:
+                        steps += 1
+                        o = cs.fl.origin.get(hid)
+                        if o is None or o.get("src") is None:
+                            break
+                        srcx = peel_clone(o["src"])
+                        if srcx.get("k") == "Try":
+                            srcx = peel_clone(srcx["e"])
+                        while srcx.get("k") == "Block" and srcx.get("e") is not None:
+                            srcx = peel_clone(srcx["e"])
+                            if srcx.get("k") == "Try":
+                                srcx = peel_clone(srcx["e"])
+                        idx = [el[1] for el in o["path"] if el[0] == "tuple"]
+                        if srcx.get("k") == "Call" and o["path"] != () and idx and idx[0] != 0 and id(o["node"]) in ctx_sites:
+                            bad = (x["name"], pp(srcx)[:50])
+                            break
+                        nxt = srcx
+                        while isinstance(nxt, dict) and nxt.get("k") == "MethodCall" and nxt["m"] in (
+                                "iter", "into_iter", "iter_mut", "enumerate", "rev", "clone", "as_ref", "drain", "zip"):
+                            nxt = peel_clone(nxt["recv"])
+                        if isinstance(nxt, dict) and nxt.get("k") == "Path" and nxt.get("res") == "Local" and nxt["hid"] != hid:
+                            hid = nxt["hid"]
+                            continue
+                        break
             rep.ob("GUARD-LOCATION", key, bad is None,
                    "the error is located at the current token or at the construct's own position" if bad is None else
                    "the error is raised because of `%s`, the construct returned by `%s`, but it is located at the context that "
@@ -571,7 +589,12 @@ def name_span(F, rep):
                 ok = se.get("k") == "Field" and se["name"] == "span" and pp(_norm(se["e"])) == base
                 why = ""
                 if not ok and (last(fn["_path"]), pp(se)) in NAME_SPAN_EXEMPT:
-                    ok, why = True, " (exempt: %s)" % NAME_SPAN_EXEMPT[(last(fn["_path"]), pp(se))]
+                    # the exemption names the function's *parameter*: an arm's pattern that rebinds the same name (to the receiver
+                    # of the access, say) is another value
+                    prm = {b["hid"] for q in fn["params"] for b in pat_bindings(q["pat"])}
+                    base_e = _norm(se["e"]) if se.get("k") == "Field" else {}
+                    if base_e.get("k") == "Path" and base_e.get("hid") in prm:
+                        ok, why = True, " (exempt: %s)" % NAME_SPAN_EXEMPT[(last(fn["_path"]), pp(se))]
                 rep.ob("NAME-SPAN", key, ok,
                        ("the message quotes %s.name and the error is located at %s%s" % (base, pp(se), why)) if ok else
                        ("the message quotes %s.name but the error is located at `%s`, not at %s.span: for a construct spread "
@@ -667,7 +690,7 @@ def parse_error_dropped(F, rep):
     optional_expressions(F, rep)
 
 
-def optional_expressions(F, rep):
+def optional_expressions(F, rep, R_="PARSE-ERROR-DROPPED"):
     """Where an expression is optional (the value of `Enum.Variant`, the next argument of a `'`-call) its presence is
     decided from the next token by starts_expression(); that predicate has to accept exactly the tokens prefix() has a rule
     for - one token too few and a construct that is there is silently skipped (and whatever follows is blamed), one too many
@@ -675,7 +698,7 @@ def optional_expressions(F, rep):
     from hir import pat_alternatives, pat_variant
     se = F.fn_opt("sylt_parser::expression::starts_expression")
     if se is None:
-        rep.ob("PARSE-ERROR-DROPPED", "optional-expression|decided-by-the-next-token", False,
+        rep.ob(R_, "optional-expression|decided-by-the-next-token", False,
                "no predicate says which tokens can start an expression: optional expressions can only be probed by trying to parse them")
         return
     rep.analysed(se)
@@ -700,13 +723,13 @@ def optional_expressions(F, rep):
                 if v:
                     rules.add(last(v))
         break
-    rep.ob("PARSE-ERROR-DROPPED", "starts_expression|mirrors-prefix", bool(yes) and yes == rules,
+    rep.ob(R_, "starts_expression|mirrors-prefix", bool(yes) and yes == rules,
            "starts_expression() accepts exactly the %d tokens prefix() has a rule for" % len(rules) if yes == rules and yes else
            "starts_expression() and prefix() disagree: only in the predicate %s, only in prefix() %s" % (sorted(yes - rules), sorted(rules - yes)),
            se["sp"])
     users = sorted({last(fn["_path"]) for fn in F.own_fns(["sylt_parser"]) if "::test" not in fn["_path"]
                     for c in nodes(fn_body(fn), "Call") if callee(c) == "sylt_parser::expression::starts_expression"})
-    rep.ob("PARSE-ERROR-DROPPED", "optional-expression|decided-by-the-next-token", len(users) >= 2,
+    rep.ob(R_, "optional-expression|decided-by-the-next-token", len(users) >= 2,
            "optional expressions are decided from the next token in %s" % users, se["sp"], sites=len(users))
 
 
